@@ -19,7 +19,7 @@ import os, shutil
 if os.path.exists(notes):
     shutil.copy(notes, OUT + '/%s/%s/notes.md' % (p, v))
 P
-    EVALWT=/tmp/evalwt_main /venv/bin/python tools/evalseed.py $p $d --keep 2>&1 | grep -v conda | grep -E '"valid"|kept|demo_' | tr '\n' ' '; echo
+    EVALWT=${EVALWT:-/tmp/evalwt_main} /venv/bin/python tools/evalseed.py $p $d --keep 2>&1 | grep -v conda | grep -E '"valid"|kept|demo_' | tr '\n' ' '; echo
   done
-  REFAC_GLOB="${SEEDOUT:-/tmp/seed4/out}/$p/r*/patch.diff" EVALWT=/tmp/evalwt_main /venv/bin/python tools/evalrefac.py --keep 2>&1 | grep -v conda | grep baseline
+  REFAC_GLOB="${SEEDOUT:-/tmp/seed4/out}/$p/r*/patch.diff" EVALWT=${EVALWT:-/tmp/evalwt_main} /venv/bin/python tools/evalrefac.py --keep 2>&1 | grep -v conda | grep baseline
 done
